@@ -36,6 +36,6 @@ MANIFEST_ENTRY = dict(
     category='other',
     engine='bounded',
     technique='sidecar contracts on the real functions: wiring / closed-form obligations from the AST discharged by z3 and the ring normaliser where the functions are within reach; bounded run-time contracts with independent oracles for the rest (never counted as proved)',
-    text='Discharged from the real source on every run (all values, stated small shapes): count_data_dict classification; _from_count_dict = sum of count x outer product of projections (polarized filter / fold); fragment_data_dict partition and chunk windows for every chunk size in a range; bootstraps_from_dd_chunks; subsampling draw call sites (without replacement); SNP / ancestral-allele tests of the VCF readers over a list of allele strings; S/pi/Watterson/theta_L/Tajima_D closed forms; Fst = Weir-Cockerham with exact rational coefficients; S() frame. Bounded run-time contracts (never counted as proved): Synthetic VCF/SNP data against direct counting with exact hypergeometric projection, chunk partition, bootstraps, subsampling, statistics.',
+    text='Discharged from the real source on every run (all values, stated small shapes): count_data_dict classification; _from_count_dict = sum of count x outer product of projections (polarized filter / fold); fragment_data_dict partition and chunk windows for every chunk size in a range; bootstraps_from_dd_chunks; subsampling draw call sites (without replacement); SNP / ancestral-allele / called-genotype tests of the VCF readers over lists of strings; S/pi/Watterson/theta_L/Tajima_D closed forms; Fst = Weir-Cockerham with exact rational coefficients; S() frame. Bounded run-time contracts (never counted as proved): Synthetic VCF/SNP data against direct counting with exact hypergeometric projection, chunk partition, bootstraps, subsampling, statistics.',
     note='bounded: see coverage.bounded.drivers[].bound in the evidence file for the exact domain of every driver',
 )
